@@ -403,18 +403,18 @@ theorem inline_route (a : Ann) (ha : a.isAnn = true) (ex s1 s2 : Bytes) (e : BEO
     (o + 1 + e.cls.b1.length + e.cls.name.length + e.cls.n2 + 1)
   have f8 := FoldB.one (sb_valB [] src (modeOf a) hm nd0 rn [] (e.cls.arrOff o) (e.cls.arrOff o))
   have f9 := FoldB.one (sb_arrB [] src (modeOf a) hm nd0 rn [] (e.cls.arrOff o) (e.cls.arrOff o) hname)
-  have f10 := sb_e_nlEvs [] src (modeOf a) hm { nd0 with rules := nd0.rules ++ [.inl rn] } rn none .itemOrEnd {} []
+  have f10 := sb_e_nlEvs [] src (modeOf a) hm { nd0 with rules := nd0.rules ++ [.inl rn], ruleVals := nd0.ruleVals ++ [none] } rn none .itemOrEnd {} []
     e.cls.w0 (e.cls.arrOff o + 1)
-  have f11 := items_foldB [] src (modeOf a) hm { nd0 with rules := nd0.rules ++ [.inl rn] } rn [] (e.cls.arrOff o)
+  have f11 := items_foldB [] src (modeOf a) hm { nd0 with rules := nd0.rules ++ [.inl rn], ruleVals := nd0.ruleVals ++ [none] } rn [] (e.cls.arrOff o)
     e.cls.items (e.items.map (·.2.1)) (e.cls.arrOff o + 1 + e.cls.w0.length) none {} c'
     (by simp [BEObj.cls]) hsl happ
-  have f12 := FoldB.one (sb_valE [] src (modeOf a) hm { nd0 with rules := nd0.rules ++ [.inl rn] } rn [c']
+  have f12 := FoldB.one (sb_valE [] src (modeOf a) hm { nd0 with rules := nd0.rules ++ [.inl rn], ruleVals := nd0.ruleVals ++ [none] } rn [c']
     (e.cls.arrOff o) (e.cls.arrOff o + 1 + e.cls.w0.length + (renderCItems e.cls.items).length - 1))
-  have f13 := sb_nlEvs [] src (modeOf a) hm .keyOrObjectEnd rfl { nd0 with rules := nd0.rules ++ [.inl rn] } rn [c']
+  have f13 := sb_nlEvs [] src (modeOf a) hm .keyOrObjectEnd rfl { nd0 with rules := nd0.rules ++ [.inl rn], ruleVals := nd0.ruleVals ++ [none] } rn [c']
     e.cls.b4 (e.cls.arrOff o + 1 + e.cls.w0.length + (renderCItems e.cls.items).length)
-  have f14 := FoldB.one (sb_objE [] src (modeOf a) hm { nd0 with rules := nd0.rules ++ [.inl rn] } rn [c'] o
+  have f14 := FoldB.one (sb_objE [] src (modeOf a) hm { nd0 with rules := nd0.rules ++ [.inl rn], ruleVals := nd0.ruleVals ++ [none] } rn [c'] o
     (o + 1 + e.cls.body.length))
-  have f15 := sb_nlEvs [] src (modeOf a) hm .commentTextBegin rfl { nd0 with rules := nd0.rules ++ [.inl rn] } rn [c']
+  have f15 := sb_nlEvs [] src (modeOf a) hm .commentTextBegin rfl { nd0 with rules := nd0.rules ++ [.inl rn], ruleVals := nd0.ruleVals ++ [none] } rn [c']
     (s3.map classify) (o + 1 + e.cls.body.length + 1)
   -- the tail: the closing lexeme, then new-line events only
   have htail : ∃ x y rest, tailEvs (SchemaScan.annOff tokC s1C) (o + 1 + e.cls.body.length + 1 + (s3.map classify).length)
@@ -433,12 +433,12 @@ theorem inline_route (a : Ann) (ha : a.isAnn = true) (ex s1 s2 : Bytes) (e : BEO
         · rfl
         · exact Loader.nlEvs_ty _ _ ev hev
   obtain ⟨x, y, rest, hte, hrest⟩ := htail
-  have f16 := FoldB.one (sb_annE [] src a ha .commentTextBegin { nd0 with rules := nd0.rules ++ [.inl rn] } rn [c'] x y)
+  have f16 := FoldB.one (sb_annE [] src a ha .commentTextBegin { nd0 with rules := nd0.rules ++ [.inl rn], ruleVals := nd0.ruleVals ++ [none] } rn [c'] x y)
   obtain ⟨bfin, f17, _, _⟩ := Loader.nl_fold_default src.toArray rest
-    { annSt (modeOf a) .commentTextBegin { nd0 with rules := nd0.rules ++ [.inl rn] } rn 1 with mode := .default } hrest rfl
+    { annSt (modeOf a) .commentTextBegin { nd0 with rules := nd0.rules ++ [.inl rn], ruleVals := nd0.ruleVals ++ [none] } rn 1 with mode := .default } hrest rfl
   have f17' := foldB_default [] src rest
-    { bst (modeOf a) .commentTextBegin { nd0 with rules := nd0.rules ++ [.inl rn] } rn [c'] with
-      base := { annSt (modeOf a) .commentTextBegin { nd0 with rules := nd0.rules ++ [.inl rn] } rn 1 with mode := .default } }
+    { bst (modeOf a) .commentTextBegin { nd0 with rules := nd0.rules ++ [.inl rn], ruleVals := nd0.ruleVals ++ [none] } rn [c'] with
+      base := { annSt (modeOf a) .commentTextBegin { nd0 with rules := nd0.rules ++ [.inl rn], ruleVals := nd0.ruleVals ++ [none] } rn 1 with mode := .default } }
     bfin hrest rfl f17
   have hall := FoldB.trans f1 (FoldB.trans f2 (FoldB.trans f3 (FoldB.trans f4 (FoldB.trans f5 (FoldB.trans f6
     (FoldB.trans f7 (FoldB.trans f8 (FoldB.trans f9 (FoldB.trans f10 (FoldB.trans f11 (FoldB.trans f12
